@@ -762,14 +762,16 @@ func classify(why string) string {
 
 // ---------------------------------------------------------------- concurrent producers / consumers
 
+// (CapChanger: a goroutine keeps calling SetCapacity with 0 / −1 / 1 / 2 / 5 while producers and consumers run)
 type concCfg struct {
-	Producers int  `json:"producers"`
-	Consumers int  `json:"consumers"`
-	PerProd   int  `json:"per_producer"`
-	Cap       int  `json:"cap"`
-	Force     bool `json:"force"`
-	Timed     bool `json:"timed_consumers"`
-	Double    bool `json:"double"`
+	CapChanger bool `json:"capacity_changer"`
+	Producers  int  `json:"producers"`
+	Consumers  int  `json:"consumers"`
+	PerProd    int  `json:"per_producer"`
+	Cap        int  `json:"cap"`
+	Force      bool `json:"force"`
+	Timed      bool `json:"timed_consumers"`
+	Double     bool `json:"double"`
 }
 
 const stopPill = -7
@@ -782,6 +784,7 @@ func concurrentRun(cfg concCfg) (fail string, detail map[string]interface{}) {
 	var get func() interface{}
 	var getT func(ms int) interface{}
 	var size func() int
+	var setCap func(int)
 	if cfg.Double {
 		d := queue.NewRequestDoubleQueue(cfg.Cap, cfg.Cap)
 		setDoubleCB(d, func(v interface{}) { mu.Lock(); failed = append(failed, unelem(v)); mu.Unlock() },
@@ -798,6 +801,7 @@ func concurrentRun(cfg concCfg) (fail string, detail map[string]interface{}) {
 			return d.Put2(v)
 		}
 		get, getT, size = d.Get, d.GetTimeout, d.Size
+		setCap = func(c int) { d.SetCapacity(c, c) }
 	} else {
 		q := queue.NewRequestQueue(cfg.Cap)
 		q.Failed = func(v interface{}) { mu.Lock(); failed = append(failed, unelem(v)); mu.Unlock() }
@@ -809,6 +813,7 @@ func concurrentRun(cfg concCfg) (fail string, detail map[string]interface{}) {
 			return q.Put(v)
 		}
 		get, getT, size = q.Get, q.GetTimeout, q.Size
+		setCap = q.SetCapacity
 	}
 
 	started := time.Now()
@@ -865,9 +870,23 @@ func concurrentRun(cfg concCfg) (fail string, detail map[string]interface{}) {
 			}
 		}(p)
 	}
+	var changerStop int32
+	changerDone := make(chan struct{})
+	go func() {
+		defer close(changerDone)
+		for i := 0; cfg.CapChanger && atomic.LoadInt32(&changerStop) == 0; i++ {
+			setCap([]int{0, -1, 1, 2, 5}[i%5])
+			runtime.Gosched()
+		}
+	}()
 	done := make(chan struct{})
 	go func() {
 		pwg.Wait()
+		atomic.StoreInt32(&changerStop, 1)
+		<-changerDone
+		if cfg.CapChanger {
+			setCap(cfg.Cap)
+		}
 		// stop pills: plain puts, retried while the queue is full (consumers are draining);
 		// a double queue serves queue 1 first, so pills go to queue 2 (odd producer index)
 		for c := 0; c < cfg.Consumers; c++ {
@@ -952,7 +971,7 @@ func concurrent(env *vh.Env, rep *vh.Report, rng *vh.Rng) {
 	cfgs := make([]concCfg, rounds)
 	for i := range cfgs {
 		cfgs[i] = concCfg{Producers: 1 + rng.Intn(4), Consumers: 1 + rng.Intn(4), PerProd: 50 + rng.Intn(400),
-			Cap: rng.PickInt([]int{-1, 0, 1, 2, 5, 64}), Force: rng.Chance(35), Timed: rng.Chance(20), Double: rng.Chance(30)}
+			Cap: rng.PickInt([]int{-1, 0, 1, 2, 5, 64}), Force: rng.Chance(35), Timed: rng.Chance(20), Double: rng.Chance(30), CapChanger: rng.Chance(30)}
 		if env.Thorough && rng.Chance(30) {
 			cfgs[i].Producers, cfgs[i].Consumers = 1+rng.Intn(8), 1+rng.Intn(8)
 		}
@@ -993,6 +1012,9 @@ func concurrent(env *vh.Env, rep *vh.Report, rng *vh.Rng) {
 		}
 		if r.cfg.Double {
 			rep.Count("conc:double-queue")
+		}
+		if r.cfg.CapChanger {
+			rep.Count("conc:capacity-changed-concurrently")
 		}
 		if r.fail != "" {
 			name := qname(r.cfg.Double)
@@ -1107,6 +1129,10 @@ func callbacksUnsettable() bool {
 func main() {
 	env, rep := vh.Parse("C11")
 	rng := vh.NewRng(env.Seed)
+	if *childMode == "syncclock" {
+		syncClockChild()
+		return
+	}
 	if *childMode == "" {
 		rep.Rule = "see the worker: sequential histories, concurrent producer/consumer runs, timed gets; the probes run in a worker process (a runtime fatal is a finding)"
 		defer func() {}()
@@ -1165,7 +1191,9 @@ func main() {
 	phase("concurrent", deadline/2, func() { concurrent(env, rep, rng.Fork()) })
 	phase("timed", time.Minute, func() { timed(env, rep) })
 	phase("timed-under-clock-delta", 2*time.Minute, func() { timedUnderDelta(env, rep) })
+	phase("sync-clock", 4*time.Minute, func() { syncClockStage(env, rep) })
 	phase("callback-window", time.Minute, func() { callbackWindow(env, rep) })
+	phase("callback-window-ops", 2*time.Minute, func() { callbackWindowOps(env, rep) })
 	phase("clear-races", 2*time.Minute, func() { clearRaces(env, rep) })
 	phase("panicking-callbacks", time.Minute, func() { panickingCallbacks(env, rep) })
 	phase("timed-arrival", time.Minute, func() { timedArrival(env, rep) })
@@ -2031,6 +2059,108 @@ func panickingCallbacks(env *vh.Env, rep *vh.Report) {
 				rep.Fail("property", v.name+"."+method+":inconsistent-after-panic", fmt.Sprintf("%s.%s with a panicking callback left Size() = %d at capacity 2", v.name, method, sz), replay)
 			case !forced && got != 1 || forced && got != 2:
 				rep.Fail("property", v.name+"."+method+":inconsistent-after-panic", fmt.Sprintf("%s.%s with a panicking callback: the next element handed out is %d", v.name, method, got), replay)
+			}
+		}
+	}
+}
+
+// ---------------------------------------------------------------- more operations inside the callback window
+
+// callbackWindowOps: the queue is full; an outer Put (refused → Failed) or PutForce (→ Overflowed) sits in
+// its callback, which lets another goroutine call GetNoWait or SetCapacity(0 / −1 / 1) and waits ≤ 120 ms.
+//   - GetNoWait: the queue is never empty in this scenario (a refused put changes nothing; a forced put
+//     evicts one element of a queue of capacity ≥ 2), so the GetNoWait must come back with an element —
+//     a nil answer ("lock busy" mistaken for "empty") is a failure, whenever it arrives;
+//   - SetCapacity: must not take effect in the middle of the outer operation (decided inside the callback),
+//     and the outer operation must return (a capacity of 0 set during the eviction loop makes it spin).
+func callbackWindowOps(env *vh.Env, rep *vh.Report) {
+	for _, dbl := range []bool{false, true} {
+		for _, outer := range []string{"Put", "PutForce"} {
+			for _, inner := range []string{"GetNoWait", "SetCapacity0", "SetCapacity-1", "SetCapacity1"} {
+				name := qname(dbl)
+				at("callback window: %s full at capacity 2, %s(1000) whose callback lets another goroutine call %s", name, outer, inner)
+				var put, force func(interface{}) bool
+				var getNW func() interface{}
+				var setCap func(int)
+				var size func() int
+				var once sync.Once
+				var innerRet interface{} = "not-run"
+				var duringCallback int32
+				innerDone := make(chan struct{})
+				cb := func(interface{}) {
+					once.Do(func() {
+						go func() {
+							defer close(innerDone)
+							if inner == "GetNoWait" {
+								innerRet = getNW()
+							} else {
+								setCap(map[string]int{"SetCapacity0": 0, "SetCapacity-1": -1, "SetCapacity1": 1}[inner])
+								innerRet = "set"
+							}
+						}()
+						select {
+						case <-innerDone:
+							atomic.StoreInt32(&duringCallback, 1) // exact: the outer operation is still in its callback
+						case <-time.After(120 * time.Millisecond):
+						}
+					})
+				}
+				if dbl {
+					d := queue.NewRequestDoubleQueue(2, 2)
+					ok := false
+					if sm := reflect.ValueOf(d).MethodByName("SetCallbacks1"); sm.IsValid() && sm.Type().NumIn() == 2 {
+						sm.Call([]reflect.Value{reflect.ValueOf(cb), reflect.ValueOf(cb)})
+						ok = true
+					} else {
+						ok = setDoubleCB(d, cb, cb)
+					}
+					if !ok {
+						continue
+					}
+					put, force, getNW, size = d.Put1, d.PutForce1, d.GetNoWait, d.Size1
+					setCap = func(c int) { d.SetCapacity(c, c) }
+				} else {
+					q := queue.NewRequestQueue(2)
+					q.Failed, q.Overflowed = cb, cb
+					put, force, getNW, size, setCap = q.Put, q.PutForce, q.GetNoWait, q.Size, q.SetCapacity
+				}
+				put(1)
+				put(2)
+				out := vh.GuardTimeout(hangLimit, func() {
+					if outer == "Put" {
+						put(1000)
+					} else {
+						force(1000)
+					}
+				})
+				rep.Case(fmt.Sprintf("callback-window-ops %s %s/%s", name, outer, inner), true)
+				rep.Count("callback-window:ops-runs")
+				replay := map[string]interface{}{"type": name, "outer": outer, "inner_from_another_goroutine": inner,
+					"how": "capacity 2, elements 1, 2; callback starts a goroutine doing the inner call and waits ≤120 ms; outer call under a 25 s watchdog; then wait for the inner call"}
+				if !out.OK() {
+					rep.Fail("property", name+"."+outer+":blocks-forever", fmt.Sprintf("%s.%s(1000) on a full queue never returned while another goroutine called %s from its callback", name, outer, inner), replay)
+					return
+				}
+				select {
+				case <-innerDone:
+				case <-time.After(hangLimit):
+					rep.Fail("property", name+"."+strings.TrimRight(inner, "-01")+":blocks-forever", fmt.Sprintf("%s: %s started from the callback of %s never returned", name, inner, outer), replay)
+					return
+				}
+				replay["inner_result"] = fmt.Sprint(innerRet)
+				sz := -1
+				vh.GuardTimeout(hangLimit, func() { sz = size() })
+				replay["size_after"] = sz
+				switch {
+				case inner == "GetNoWait" && innerRet == nil:
+					rep.Fail("property", name+".GetNoWait:nil-although-nonempty",
+						fmt.Sprintf("%s: GetNoWait called while %s(1000) sat in its callback answered nil although the queue held elements the whole time", name, outer), replay)
+					return
+				case inner != "GetNoWait" && atomic.LoadInt32(&duringCallback) == 1:
+					rep.Fail("property", name+"."+outer+":not-atomic",
+						fmt.Sprintf("%s: %s took effect while %s(1000) was still in its callback (capacity changed in the middle of the operation)", name, inner, outer), replay)
+					return
+				}
 			}
 		}
 	}
